@@ -1,8 +1,8 @@
 (* Num/C14ModelProofs.v — the executable judge of the correspondence run (Num/C14Model.v) accepts the model's own
    observations, for ALL inputs: so a `fails` verdict on the implementation is a statement about the implementation, and
    the judge's conditions are consequences of the theorems of Num/*Proofs.v. *)
-From CSL Require Import Base.Prelude Base.U64 Cbor.Head Num.Decimal Num.U64 Num.IntRange Num.BigIntCbor Num.Value Num.C14Model.
-From CSL Require Import Num.U64Proofs Num.DecimalProofs Num.IntRangeProofs Num.BigIntCborProofs Num.ValueProofs.
+From CSL Require Import Base.Prelude Base.U64 Cbor.Head Num.Decimal Num.U64 Num.IntRange Num.BigIntCbor Num.Value Num.Mint Num.C14Model.
+From CSL Require Import Num.U64Proofs Num.DecimalProofs Num.IntRangeProofs Num.BigIntCborProofs Num.ValueProofs Num.MintProofs.
 Local Open Scope N_scope.
 
 Lemma resN_eqb_refl r : resN_eqb r r = true.
@@ -125,18 +125,37 @@ Theorem judge_mint_accepts ops : forallb (fun op => int_in_range (mint_op_amount
   judge_mint ops (model_mint ops) = Holds.
 Proof.
   intros W. unfold judge_mint, model_mint.
-  pose proof (mint_run_in_range ops [] (Forall_nil _) W) as R.
+  pose proof (mint_run_mint_range ops [] (Forall_nil _) W) as R.
   destruct (mint_run mint_step [] ops) as [s oks]. cbn [fst snd] in *.
   unfold mint_build. destruct (forallb (fun kv : N * Z => negb (snd kv =? 0)%Z) s) eqn:NZ; cbn [bind snd]; [|reflexivity].
-  assert (A : forall k, match option_map (fun z => (z, int_serialize z)) (ms_get k s) with
-                        | Some (z, bs) => int_in_range z && resZ_eqb (int_from_bytes bs) (Ok z) && negb (z =? 0)%Z
-                        | None => true end = true).
-  { intros k. destruct (ms_get k s) as [z|] eqn:G; [|reflexivity]. cbn [option_map].
-    pose proof (ms_get_in_range k s z R G) as Rz. rewrite Rz, (int_from_bytes_roundtrip z Rz), resZ_eqb_refl. cbn [andb].
-    clear R Rz. induction s as [|[k' v'] s IH]; cbn [ms_get] in G; [discriminate|].
-    cbn [forallb] in NZ. apply andb_true_iff in NZ. destruct NZ as [N1 N2].
-    destruct (k =? k'); [injection G as <-; exact N1 | auto]. }
+  assert (A : forall k, judge_mint_entry (option_map mint_observe_entry (ms_get k s)) = true).
+  { intros k. destruct (ms_get k s) as [z|] eqn:G; [|reflexivity]. cbn [option_map judge_mint_entry mint_observe_entry].
+    pose proof (ms_get_mint_range k s z R G) as Rz. destruct (in_mint_range_int z Rz) as [Ri Rm].
+    destruct (int_accessors_exact z Ri Rm) as [P [Ng _]]. rewrite P, Ng, (int_from_bytes_roundtrip z Ri), resZ_eqb_refl.
+    assert (NZz : (z =? 0)%Z = false).
+    { clear R Rz P Ng. induction s as [|[k' v'] s IH]; cbn [ms_get] in G; [discriminate|].
+      cbn [forallb] in NZ. apply andb_true_iff in NZ. destruct NZ as [N1 N2].
+      destruct (k =? k'); [injection G as <-; cbn [snd] in N1; destruct (v' =? 0)%Z; [discriminate | reflexivity] | auto]. }
+    rewrite NZz. unfold in_mint_range in Rz.
+    replace ((mint_min <=? z)%Z && (z <=? int_max)%Z) with true by lia. cbn [andb negb orN].
+    destruct (0 <=? z)%Z eqn:S1.
+    - replace (z <? 0)%Z with false by lia. cbn [orN].
+      replace (Z.of_N (Z.to_N z) =? Z.max z 0)%Z with true by lia. replace (Z.of_N 0 =? Z.max (- z) 0)%Z with true by lia. reflexivity.
+    - replace (z <? 0)%Z with true by lia. cbn [orN].
+      replace (Z.of_N 0 =? Z.max z 0)%Z with true by lia. replace (Z.of_N (Z.to_N (- z)) =? Z.max (- z) 0)%Z with true by lia. reflexivity. }
   unfold mint_keys. cbn [map forallb]. rewrite !A. reflexivity.
+Qed.
+
+(* ---- Mint conversions ---- *)
+Theorem judge_mintv_accepts m : mint_wfb m = true -> mint_has_min m = false -> has_dup_policy m = false ->
+  judge_mintv m (model_mintv m) = Holds.
+Proof.
+  intros W M D. unfold judge_mintv, model_mintv. rewrite W. cbn [negb fst snd].
+  pose proof (mint_ok_of_bool m W M) as OK.
+  assert (S : forall s, mintv_side_ok s m (mint_as_multiasset s m) = true).
+  { intros s. destruct (mint_as_multiasset_exact s m OK D) as [Wr Q]. unfold mintv_side_ok. rewrite Wr. cbn [andb].
+    apply forallb_forall. intros [p n] _. cbn [fst snd]. rewrite Q. apply Z.eqb_refl. }
+  unfold mint_as_positive_multiasset, mint_as_negative_multiasset. rewrite !S. reflexivity.
 Qed.
 
 (* ---- Value ---- *)
